@@ -1,6 +1,7 @@
 CONSTANTS
   Snaps <- MCSnaps3
   MaxChanges = 100
+  WithPartial = TRUE
 INIT TInit
 NEXT TNext
 CHECK_DEADLOCK FALSE
